@@ -374,32 +374,56 @@ func runBurst(tm *trackermanager.TrackerManager, i int, c fcase) fres {
 		txid []byte
 		b    byte
 	}
+	var gotMu sync.Mutex
+	got := map[byte]bool{} // announces that reached the tracker (a request datagram dropped by a full socket buffer is nobody's fault)
 	go func() { // the tracker: connects are answered at once, announces are held until c.Burst of them are there
 		var hs []held
+		var firstHeld time.Time
 		buf := make([]byte, 2048)
 		wave := 0
 		for {
+			conn.SetReadDeadline(time.Now().Add(200 * time.Millisecond))
 			n, from, err := conn.ReadFromUDP(buf)
+			timeout := false
 			if err != nil {
-				return
+				if ne, ok := err.(net.Error); ok && ne.Timeout() {
+					timeout, n = true, 0
+				} else {
+					return
+				}
 			}
-			if n < 16 {
+			if timeout && (len(hs) == 0 || time.Since(firstHeld) < 1500*time.Millisecond) {
 				continue
 			}
-			switch binary.BigEndian.Uint32(buf[8:12]) {
+			if !timeout && n < 16 {
+				continue
+			}
+			action := uint32(99) // 99: a held burst is released because some request never arrived
+			if !timeout {
+				action = binary.BigEndian.Uint32(buf[8:12])
+			}
+			switch action {
 			case 0:
 				out := append(append(be32(0), buf[12:16]...), 0, 0, 0, 0, 0, 0, 0x12, 0x34)
 				conn.WriteToUDP(out, from)
-			case 1:
-				if n < 98 {
-					continue
+			case 1, 99:
+				if action == 1 {
+					if n < 98 {
+						continue
+					}
+					if len(hs) == 0 {
+						firstHeld = time.Now()
+					}
+					hs = append(hs, held{from, append([]byte{}, buf[12:16]...), buf[16]})
+					gotMu.Lock()
+					got[buf[16]] = true
+					gotMu.Unlock()
 				}
-				hs = append(hs, held{from, append([]byte{}, buf[12:16]...), buf[16]})
 				need := c.Burst
 				if wave > 0 {
 					need = 1 // second wave: answered one by one, each with its duplicates right behind it
 				}
-				if len(hs) < need {
+				if len(hs) < need && action == 1 {
 					continue
 				}
 				order := hs
@@ -428,7 +452,7 @@ func runBurst(tm *trackermanager.TrackerManager, i int, c fcase) fres {
 						sendAll(1)
 					}
 				}()
-				if len(hs) == c.Burst && wave == 0 {
+				if wave == 0 {
 					wave = 1
 				}
 				hs = nil
@@ -452,8 +476,15 @@ func runBurst(tm *trackermanager.TrackerManager, i int, c fcase) fres {
 		mu.Lock()
 		defer mu.Unlock()
 		if err != nil {
-			r.Lost++
-			r.Err = trunc(err.Error())
+			gotMu.Lock()
+			reached := got[b]
+			gotMu.Unlock()
+			if reached { // the tracker answered this announce (several times), the client never accepted it
+				r.Lost++
+				r.Err = trunc(err.Error())
+			} else {
+				r.Port0++ // reused as "request never reached the tracker" counter (not judged)
+			}
 			return
 		}
 		iv, le, se, peers := burstReply(b)
